@@ -101,8 +101,31 @@ func startShovel(e *core.Env, confDoc func(pgurl string) string, env ...string) 
 	return p, nil
 }
 
-// startShovelOn: the same against a fake PostgreSQL the caller owns (it survives the process)
+// gojsonCrash: the recorded finding `<property>.gojson_decoder_crash` — the process dies with a nil
+// pointer dereference inside goccy/go-json's struct decoder, called from jrpc2.(*Client).do
+func gojsonCrash(out string) bool {
+	return strings.Contains(out, "goccy/go-json/internal/decoder.(*structDecoder).DecodeStream") &&
+		strings.Contains(out, "jrpc2.(*Client).do") && strings.Contains(out, "nil pointer dereference")
+}
+
+// startShovelOn: the same against a fake PostgreSQL the caller owns (it survives the process). A start
+// that dies of the recorded go-json crash is reported under that finding's class and the program is
+// started again, as a supervisor would (at most three times).
 func startShovelOn(e *core.Env, url string, confDoc func(pgurl string) string, env ...string) (*shovelProc, error) {
+	var p *shovelProc
+	var err error
+	for attempt := 0; attempt < 3; attempt++ {
+		p, err = startShovelOnce(e, url, confDoc, env...)
+		if err == nil || !gojsonCrash(err.Error()) {
+			return p, err
+		}
+		e.Add(core.Case{Impl: "the shovel process died while starting: " + err.Error(), Spec: "started", Class: e.Prop + ".gojson_decoder_crash",
+			Key: fmt.Sprintf("gojson-crash %d %d", time.Now().UnixNano(), attempt), Nontrivial: true, Tags: []string{"binary", "go-json-decoder-crash-at-start-up"}})
+	}
+	return p, err
+}
+
+func startShovelOnce(e *core.Env, url string, confDoc func(pgurl string) string, env ...string) (*shovelProc, error) {
 	bin, err := buildShovelBinary(e)
 	if err != nil {
 		return nil, err
